@@ -191,7 +191,7 @@ def run(tier, seed):
         ck.violation("harness-build", {"kind": "build"}, {"log": log[-3000:]}, no_input=True)
         return ck.finish()
     rc, out = sh([binp, "-seed", str(seed)] + args, timeout=3000)
-    recs = [json.loads(ln) for ln in out.split("\n") if ln.startswith("{")]
+    recs = jlines(out)
     if rc != 0 or len(recs) < 2 or recs[0].get("t") != "tree":
         ck.violation("harness-crash", {"kind": "crash"}, {"rc": rc, "tail": out[-3000:]}, no_input=False)
         return ck.finish()
